@@ -95,16 +95,17 @@ def body(case):
     if ex:
         import contextlib
         run = Run(recipe, case["params"], refine=False)
+        refused = False
         try:
             run.step(ex["steps"])
         except Exception as e:
             if "outside of interval" not in str(e):
                 raise
-            return False, ["float-resolution-stop"]
+            refused = True      # the method refused an interval it cannot subdivide; the evaluations made are judged
         with contextlib.redirect_stdout(run.out):
             for _ in range(2 if ex["twice"] else 1):
                 run.solver.DoLocalRefinement(ex["k"])
-        if ex.get("more"):
+        if ex.get("more") and not refused:
             try:
                 run.step(ex["more"])
             except Exception as e:
